@@ -354,3 +354,239 @@ Proof.
   intros R X L S. eapply gc_step_reads_unchanged; eauto.
   eapply xexec_inv; eauto. apply init_inv.
 Qed.
+
+(* ------------------------------------------------------------------------------------ *)
+(* items held by open transactions *)
+
+(* the value log is monotone: files keep their records, deleted files stay deleted *)
+Definition vmono (v v' : vstate) : Prop :=
+  ext (v_files v) (v_files v') /\ (forall f, In f (v_gone v) -> In f (v_gone v')).
+
+Lemma vmono_refl v : vmono v v.
+Proof. split; [apply ext_refl|auto]. Qed.
+
+Lemma vmono_trans a b c : vmono a b -> vmono b c -> vmono a c.
+Proof. intros [A1 A2] [B1 B2]. split; [eapply ext_trans; eauto|auto]. Qed.
+
+Lemma vmono_remove v fs : vmono v (remove_fids fs v).
+Proof. split; [apply ext_refl|]. intros f Hf. cbn. apply in_or_app. now right. Qed.
+
+Lemma xstep_vmono s o s' tg : inv s -> xstep s o = XOk s' tg -> vmono (x_v s) (x_v s').
+Proof.
+  intros I. pose proof (fresh_next_of_bound _ (i_bound _ _ _ _ _ _ _ I)) as Hfn.
+  assert (Hc: forall t cts r ord, commit_step s t cts r ord = XOk s' tg -> vmono (x_v s) (x_v s')).
+  { intros t cts r ord. unfold commit_step, xcommit.
+    destruct (lookup (s_txns (x_sys s)) t) as [x|]; [|discriminate].
+    destruct (txn_commit (x_sys s) t x cts) as [[r' ts] y1].
+    destruct (x_pend x).
+    - destruct (_ && _); [|discriminate]. intros [= <- _]. apply vmono_refl.
+    - destruct (r' =? 0).
+      + destruct (write_req (x_v s) _) as [v' pes] eqn:W. destruct (_ && _); [|discriminate].
+        intros [= <- _]. cbn. destruct (write_req_ext _ _ _ _ Hfn W) as [A B]. split; auto. now rewrite B.
+      + destruct (_ && _); [|discriminate]. intros [= <- _]. apply vmono_refl. }
+  destruct o; cbn [xstep]; eauto.
+  - (* Base *)
+    unfold base_step. destruct o; eauto;
+      try (destruct (step (x_sys s) _) as [y'|]; [|discriminate]; intros [= <- _]; apply vmono_refl).
+    + destruct (lookup (s_txns (x_sys s)) t) as [x|]; [|discriminate].
+      destruct (txn_get (x_sys s) x k) as [r' x']. destruct (getres_eqb _ r); [|discriminate].
+      intros [= <- _]. apply vmono_refl.
+    + destruct (lookup (s_txns (x_sys s)) t) as [x|]; [|discriminate].
+      destruct (entries_eqb _ items); [|discriminate]. intros [= <- _]. apply vmono_refl.
+    + destruct (negb _); [discriminate|]. destruct (match the_clamp s with Some _ => _ | None => _ end); [discriminate|].
+      destruct (s_managed (x_sys s) && _); [discriminate|]. destruct (entries_eqb _ out); [|discriminate].
+      destruct (_ || _); [|discriminate]. intros [= <- _]. apply vmono_refl.
+    + destruct (dump_eqb _ levels); [|discriminate]. intros [= <- _]. apply vmono_refl.
+  - destruct (lookup (s_txns (x_sys s)) t) as [x|]; [|discriminate].
+    destruct (txn_get (x_sys s) x k) as [r' x']. destruct (getres_meta_eqb _ r' r); [|discriminate].
+    intros [= <- _]. apply vmono_refl.
+  - destruct (lookup (x_items s) h) as [e|]; [|discriminate]. destruct (bytes_eqb _ val); [|discriminate].
+    intros [= <- _]. apply vmono_refl.
+  - destruct (lookup (s_txns (x_sys s)) t) as [x|]; [|discriminate]. intros [= <- _]. apply vmono_refl.
+  - destruct (lookup (x_iters s) i) as [it|]; [|discriminate].
+    destruct (lookup (s_txns (x_sys s)) (it_txn it)) as [x|]; [|discriminate].
+    destruct (entries_eqb _ items); [|discriminate]. intros [= <- _]. apply vmono_refl.
+  - destruct (lookup (x_iters s) i) as [it|]; [|discriminate]. intros [= <- _].
+    unfold close_iter. destruct (filter _ (x_iters s)); cbn; [apply vmono_remove|apply vmono_refl].
+  - destruct (x_gc s) as [g|]; [discriminate|].
+    destruct (existsb (N.eqb fid) (x_todel s)). { destruct (r =? 1); [|discriminate]. intros [= <- _]. apply vmono_refl. }
+    destruct (negb (fid <? v_max (x_v s))); [discriminate|].
+    destruct (negb (file_present (x_v s) fid)); [discriminate|].
+    destruct (r =? 0); [|discriminate]. intros [= <- _]. apply vmono_refl.
+  - destruct (x_gc s) as [g|]; [|discriminate]. destruct (g_scanned g); [discriminate|].
+    destruct (keys_eqb _ kept); [|discriminate]. intros [= <- _]. apply vmono_refl.
+  - destruct (x_gc s) as [g|]; [|discriminate]. destruct (negb (g_scanned g)); [discriminate|].
+    destruct (g_wb g) as [|p ps] eqn:Wb. { intros [= <- _]. apply vmono_refl. }
+    destruct (write_req (x_v s) _) as [v' pes] eqn:W. intros [= <- _]. cbn.
+    destruct (write_req_ext _ _ _ _ Hfn W) as [A B]. split; auto. now rewrite B.
+  - destruct (x_gc s) as [g|]; [|discriminate].
+    destruct (negb (g_scanned g) || _); [discriminate|].
+    destruct (negb (file_present (x_v s) (g_fid g))); [discriminate|].
+    destruct (x_iters s); destruct deferred; try discriminate; intros [= <- _]; cbn;
+      [apply vmono_remove|apply vmono_refl].
+  - destruct (x_gc s) as [g|]; [|discriminate]. intros [= <- _]. apply vmono_refl.
+  - destruct (_ && _); [|discriminate]. intros [= <- _]. apply vmono_refl.
+Qed.
+
+(* an entry still dereferences to the same thing as long as its file is not deleted *)
+Lemma deref_vmono v v' e x :
+  vmono v v' -> deref v e = Some x ->
+  (forall fid, ptr_fid e = Some fid -> gone (v_gone v') fid = false) -> deref v' e = Some x.
+Proof.
+  intros [He Hg]. unfold deref, ptr_fid, read_ptr. destruct (is_ptr e); auto.
+  destruct (e_val e) as [|fid [|idx [|? ?]]]; try discriminate. intros H Hl.
+  rewrite (Hl fid eq_refl). destruct (gone (v_gone v) fid); [discriminate|].
+  destruct (vfind (v_files v) fid) as [rs|] eqn:F; [|discriminate].
+  destruct (He _ _ F) as [more ->].
+  destruct (nth_error rs (N.to_nat idx)) as [r|] eqn:Nth; [|discriminate].
+  now rewrite (nth_error_app_l _ more _ _ Nth).
+Qed.
+
+Lemma xexec_vmono ops : forall s i tags s' tags',
+  inv s -> run_ok s ops -> xexec s ops i tags = (None, s', tags') -> vmono (x_v s) (x_v s').
+Proof.
+  induction ops as [|o r IH]; intros s i tags s' tags' I R; cbn [xexec].
+  - intros [= <- _]. apply vmono_refl.
+  - cbn [run_ok] in R. destruct R as [A R]. destruct (xstep s o) as [s1 tg|c] eqn:X; [|discriminate].
+    intros H. eapply vmono_trans; [eapply xstep_vmono; eauto|].
+    eapply IH; eauto. eapply xstep_inv; eauto.
+Qed.
+
+(* C15, open items (partial): whatever an item dereferenced to when it was obtained, it still
+   dereferences to after any admissible history, PROVIDED its value-log file has not been
+   deleted (e.g. the value is read before GC removes the file) *)
+Theorem held_item_readable_while_file_exists s ops i tags s' tags' e x :
+  inv s -> run_ok s ops -> xexec s ops i tags = (None, s', tags') ->
+  deref (x_v s) e = Some x ->
+  (forall fid, ptr_fid e = Some fid -> gone (v_gone (x_v s')) fid = false) ->
+  deref (x_v s') e = Some x.
+Proof. intros I R X D L. eapply deref_vmono; eauto. eapply xexec_vmono; eauto. Qed.
+
+(* while an iterator is open no file is deleted (deleteLogFile is deferred to the last close) *)
+Lemma xstep_iters_pin s o s' tg : xstep s o = XOk s' tg -> x_iters s' <> [] -> v_gone (x_v s') = v_gone (x_v s).
+Proof.
+  assert (Hc: forall t cts r ord, commit_step s t cts r ord = XOk s' tg -> v_gone (x_v s') = v_gone (x_v s)).
+  { intros t cts r ord. unfold commit_step, xcommit.
+    destruct (lookup (s_txns (x_sys s)) t) as [x|]; [|discriminate].
+    destruct (txn_commit (x_sys s) t x cts) as [[r' ts] y1].
+    destruct (x_pend x).
+    - destruct (_ && _); [|discriminate]. now intros [= <- _].
+    - destruct (r' =? 0).
+      + unfold write_req. destruct (fold_left _ _ _) as [[vl cnt] out].
+        destruct (v_maxent (x_v s) <? cnt); destruct (_ && _); try discriminate; now intros [= <- _].
+      + destruct (_ && _); [|discriminate]. now intros [= <- _]. }
+  destruct o; cbn [xstep]; eauto.
+  - unfold base_step. destruct o; eauto;
+      try (destruct (step (x_sys s) _) as [y'|]; [|discriminate]; now intros [= <- _]).
+    + destruct (lookup (s_txns (x_sys s)) t) as [x|]; [|discriminate].
+      destruct (txn_get (x_sys s) x k) as [r' x']. destruct (getres_eqb _ r); [|discriminate]. now intros [= <- _].
+    + destruct (lookup (s_txns (x_sys s)) t) as [x|]; [|discriminate].
+      destruct (entries_eqb _ items); [|discriminate]. now intros [= <- _].
+    + destruct (negb _); [discriminate|]. destruct (match the_clamp s with Some _ => _ | None => _ end); [discriminate|].
+      destruct (s_managed (x_sys s) && _); [discriminate|]. destruct (entries_eqb _ out); [|discriminate].
+      destruct (_ || _); [|discriminate]. now intros [= <- _].
+    + destruct (dump_eqb _ levels); [|discriminate]. now intros [= <- _].
+  - destruct (lookup (s_txns (x_sys s)) t) as [x|]; [|discriminate].
+    destruct (txn_get (x_sys s) x k) as [r' x']. destruct (getres_meta_eqb _ r' r); [|discriminate]. now intros [= <- _].
+  - destruct (lookup (x_items s) h) as [e|]; [|discriminate]. destruct (bytes_eqb _ val); [|discriminate]. now intros [= <- _].
+  - destruct (lookup (s_txns (x_sys s)) t) as [x|]; [|discriminate]. now intros [= <- _].
+  - destruct (lookup (x_iters s) i) as [it|]; [|discriminate].
+    destruct (lookup (s_txns (x_sys s)) (it_txn it)) as [x|]; [|discriminate].
+    destruct (entries_eqb _ items); [|discriminate]. now intros [= <- _].
+  - destruct (lookup (x_iters s) i) as [it|]; [|discriminate]. intros [= <- _].
+    unfold close_iter. destruct (filter _ (x_iters s)); cbn; [congruence|auto].
+  - destruct (x_gc s) as [g|]; [discriminate|].
+    destruct (existsb (N.eqb fid) (x_todel s)). { destruct (r =? 1); [|discriminate]. now intros [= <- _]. }
+    destruct (negb (fid <? v_max (x_v s))); [discriminate|].
+    destruct (negb (file_present (x_v s) fid)); [discriminate|].
+    destruct (r =? 0); [|discriminate]. now intros [= <- _].
+  - destruct (x_gc s) as [g|]; [|discriminate]. destruct (g_scanned g); [discriminate|].
+    destruct (keys_eqb _ kept); [|discriminate]. now intros [= <- _].
+  - destruct (x_gc s) as [g|]; [|discriminate]. destruct (negb (g_scanned g)); [discriminate|].
+    destruct (g_wb g) as [|p ps] eqn:Wb. { now intros [= <- _]. }
+    unfold write_req. destruct (fold_left _ _ _) as [[vl cnt] out].
+    destruct (v_maxent (x_v s) <? cnt); now intros [= <- _].
+  - destruct (x_gc s) as [g|]; [|discriminate].
+    destruct (negb (g_scanned g) || _); [discriminate|].
+    destruct (negb (file_present (x_v s) (g_fid g))); [discriminate|].
+    destruct (x_iters s) eqn:Its; destruct deferred; try discriminate; intros [= <- _]; cbn; auto.
+    congruence.
+  - destruct (x_gc s) as [g|]; [|discriminate]. now intros [= <- _].
+  - destruct (_ && _); [|discriminate]. now intros [= <- _].
+Qed.
+
+(* some iterator is open in every state of the run (e.g. one iterator from beginning to end) *)
+Fixpoint iters_open (s : xsys) (ops : list xop) : Prop :=
+  x_iters s <> [] /\
+  match ops with
+  | [] => True
+  | o :: r => match xstep s o with XOk s1 _ => iters_open s1 r | XBad _ => True end
+  end.
+
+Lemma iterator_pins_files ops : forall s i tags s' tags',
+  iters_open s ops -> xexec s ops i tags = (None, s', tags') -> v_gone (x_v s') = v_gone (x_v s).
+Proof.
+  induction ops as [|o r IH]; intros s i tags s' tags' [Hne H]; cbn [xexec].
+  - now intros [= <- _].
+  - destruct (xstep s o) as [s1 tg|c] eqn:X; [|discriminate]. intros E.
+    rewrite (IH _ _ _ _ _ H E). eapply xstep_iters_pin; eauto. destruct r; apply H.
+Qed.
+
+(* C15, open items (partial): everything that dereferences when an iterator is opened still
+   dereferences, to the same entry, for as long as that iterator stays open — through any
+   number of rewrites, whose file deletions are deferred *)
+Theorem iterator_items_readable s ops i tags s' tags' e x :
+  inv s -> run_ok s ops -> iters_open s ops -> xexec s ops i tags = (None, s', tags') ->
+  deref (x_v s) e = Some x -> deref (x_v s') e = Some x.
+Proof.
+  intros I R O X D. destruct (xexec_vmono _ _ _ _ _ _ I R X) as [He _].
+  eapply deref_stable; eauto. eapply iterator_pins_files; eauto.
+Qed.
+
+(* ------------------------------------------------------------------------------------ *)
+(* the #2286 clamp, at the level of the compaction filter *)
+
+(* the filter never drops a version above its discard timestamp *)
+Lemma filter_keeps_above_discard p m e :
+  cp_drop p = [] -> sorted m -> In e m -> cp_discard p < e_ver e -> In e (compact_filter p m).
+Proof.
+  intros Hd Hs Hin Hv. destruct (filter_class p Hd m Hs e Hin) as [H|[(mk & A & B & C & D)|((D & _) & _)]]; auto; lia.
+Qed.
+
+(* nor a live version that no marker at or below the discard timestamp shadows *)
+Lemma filter_keeps_unshadowed p m e :
+  cp_drop p = [] -> sorted m -> In e m ->
+  (forall mk, In mk m -> e_key mk = e_key e -> e_ver e < e_ver mk -> cp_discard p < e_ver mk) ->
+  deleted_or_expired e (cp_now p) = false ->
+  In e (compact_filter p m).
+Proof.
+  intros Hd Hs Hin Hsh Hlive.
+  destruct (filter_class p Hd m Hs e Hin) as [H|[(mk & A & B & C & D)|((_ & _ & D) & _)]]; auto.
+  - specialize (Hsh mk A B C). lia.
+  - congruence.
+Qed.
+
+(* the model only accepts a compaction label that respects the clamp of a rewrite in flight *)
+Lemma compact_respects_clamp s c out s' tg g :
+  xstep s (Base (Compact c out)) = XOk s' tg -> x_gc s = Some g -> 0 < g_clamp g ->
+  c_discard c <= g_clamp g.
+Proof.
+  cbn [xstep]. unfold base_step, the_clamp. intros X G Hc. rewrite G in X.
+  assert (E: (0 <? g_clamp g) = true) by lia. rewrite E in X.
+  destruct (negb _); [discriminate|]. destruct (g_clamp g <? c_discard c) eqn:L; [discriminate|]. lia.
+Qed.
+
+(* #2286: while a rewrite is in flight (clamp = MaxVersion at its start), no version newer than
+   the clamp — in particular no tombstone committed after the rewrite started — is dropped by a
+   compaction *)
+Theorem clamp_protects_newer_versions s c out s' tg g e :
+  xstep s (Base (Compact c out)) = XOk s' tg -> x_gc s = Some g -> 0 < g_clamp g ->
+  c_drop c = [] -> Forall sorted (compaction_inputs (l_levels (x_db s)) c) ->
+  In e (merge_all (compaction_inputs (l_levels (x_db s)) c)) -> g_clamp g < e_ver e ->
+  In e (compaction_output (l_levels (x_db s)) c).
+Proof.
+  intros X G Hc Hd Hs Hin Hv. pose proof (compact_respects_clamp _ _ _ _ _ _ X G Hc) as Hle.
+  unfold compaction_output. apply filter_keeps_above_discard; auto.
+  - now apply merge_all_sorted.
+  - cbn [cp_discard]. lia.
+Qed.
